@@ -26,6 +26,8 @@
 -/
 import NngModel.Model.SpStream
 import NngModel.Model.Backtrace
+import NngModel.Generated.C01
+import NngModel.Generated.C11
 namespace Nng.Hostile
 open Nng Nng.Sp
 
